@@ -14,6 +14,7 @@
 //       items    <type char>[-]   XnwracTNMFOID, "-" = removed flag set; entities get id = position+1
 //       -> events "<h>.<sub>:<callback>[!]:<position>" ... "<h>.<sub>:flush" | "-" ; " !unknown_type" appended
 //          when osmium::unknown_type left apply()
+//   fdrive <Class> <c|m|r> <script> <n> <items...>  driving patterns of the same iterators (see fdrive_run)
 //   filt <Class> <c|m|r> <items...>  -> "<count>: <positions>" visited by select<Class>() (const / non-const
 //          buffer) or by InputIterator<source, Class> (r); " size-mismatch" if ItemIteratorRange::size()
 //          differs from the number of iterations
@@ -295,6 +296,69 @@ static std::string filt(Input& in, char mode) {
     return std::to_string(n) + ":" + out + (mismatch ? " size-mismatch" : "");
 }
 
+// driving patterns of the filtering iterators (same script alphabet as `drive` in c20_diff.cpp):
+//   fdrive <Class> <c|m|r> <script> <n> <items...>    n = number of items the iterator has to visit
+//   -> per dereference the position of the item, "@" = operation refused at the end (decided by the
+//      harness's own position counter), E0|E1 (a == end), Q0|Q1 (a == b)
+template <typename It>
+static std::string fdrive_run(const std::string& script, int n, It a, const It& end) {
+    std::string out;
+    auto ev = [&](const std::string& s) { if (!out.empty()) out += ' '; out += s; };
+    auto visit = [&](const Item& it) { ev(std::to_string(env().position(&it))); };
+    It b{a};
+    int pa = 0;
+    int pb = 0;
+    for (const char c : script) {
+        switch (c) {
+            case '.': break;
+            case 'd': if (pa < n) { visit(*a); } else { ev("@"); } break;
+            case 'r': if (pa < n) { visit(*a.operator->()); } else { ev("@"); } break;
+            case 'i': if (pa < n) { ++a; ++pa; } else { ev("@"); } break;
+            case 'p': if (pa < n) { visit(*a++); ++pa; } else { ev("@"); } break;
+            case 'a': if (pa + 1 < n) { std::advance(a, 2); pa += 2; } else { ev("@"); } break;
+            case 'c': b = a; pb = pa; break;
+            case 's': a = b; pa = pb; break;
+            case 'e': if (pb < n) { visit(*b); } else { ev("@"); } break;
+            case 'j': if (pb < n) { ++b; ++pb; } else { ev("@"); } break;
+            case 'q': if (pb < n) { visit(*b++); ++pb; } else { ev("@"); } break;
+            case '=': ev(a == end ? "E1" : "E0"); break;
+            case '~': ev(a == b ? "Q1" : "Q0"); break;
+            default: return BAD;
+        }
+    }
+    return out.empty() ? "-" : out;
+}
+
+template <typename T>
+static std::string fdrive(Input& in, char mode, const std::string& script, int n) {
+    if (mode == 'r') {
+        in.build(true);
+        osmium::io::InputIterator<FakeSource, T> it{in.source};
+        const osmium::io::InputIterator<FakeSource, T> end{};
+        return fdrive_run(script, n, it, end);
+    }
+    in.build(false);
+    if (mode == 'm') {
+        auto range = in.whole.select<T>();
+        return fdrive_run(script, n, range.begin(), range.end());
+    }
+    const Buffer& cb = in.whole;
+    const auto range = cb.select<T>();
+    return fdrive_run(script, n, range.begin(), range.end());
+}
+
+static std::string do_fdrive(const std::string& cls, Input& in, char mode, const std::string& script, int n) {
+    if (cls == "Item") return fdrive<Item>(in, mode, script, n);
+    if (cls == "OSMEntity") return fdrive<osmium::OSMEntity>(in, mode, script, n);
+    if (cls == "OSMObject") return fdrive<osmium::OSMObject>(in, mode, script, n);
+    if (cls == "Node") return fdrive<osmium::Node>(in, mode, script, n);
+    if (cls == "Way") return fdrive<osmium::Way>(in, mode, script, n);
+    if (cls == "Changeset") return fdrive<osmium::Changeset>(in, mode, script, n);
+    if (cls == "TagList") return fdrive<osmium::TagList>(in, mode, script, n);
+    if (cls == "RelationMemberList") return fdrive<osmium::RelationMemberList>(in, mode, script, n);
+    return BAD;
+}
+
 static std::string do_filt(const std::string& cls, Input& in, char mode) {
     if (cls == "Item") return filt<Item>(in, mode);
     if (cls == "OSMEntity") return filt<osmium::OSMEntity>(in, mode);
@@ -356,6 +420,11 @@ int main() {
                 Input in;
                 if (!parse_items(w, 3, in)) return BAD;
                 return do_filt(w[1], in, w[2][0]);
+            }
+            if (w[0] == "fdrive" && w.size() >= 5 && w[2].size() == 1) {
+                Input in;
+                if (!parse_items(w, 5, in)) return BAD;
+                return do_fdrive(w[1], in, w[2][0], w[3], std::atoi(w[4].c_str()));
             }
         } catch (const std::exception& ex) {
             return std::string{"exception:"} + ex.what();
